@@ -136,10 +136,115 @@ theorem avp_oversize_refused (w : Bytes) (a : AVP) (h : 6 + a.getLength > 1023) 
     writeAvp w a = .error .panic :=
   writeAvp_oversize w a (by rw [← getLength_exact]; exact h)
 
-/-- a control message over 65535 octets is refused -/
+/-- a control message over 65535 octets is refused (all its AVPs being encodable) -/
 theorem control_oversize_refused (w : Bytes) (c : Control) (ha : ∀ a ∈ c.avps, 6 + a.value.length ≤ 1023)
     (h : 12 + (avpsImage c.avps).length > 65535) : writeControl w c = .error .panic :=
   writeControl_oversize w c ha h
+
+/-- a control message that contains an AVP over 1023 octets is refused, wherever the AVP stands -/
+theorem control_with_oversize_avp_refused (w : Bytes) (c : Control) (h : ∃ a ∈ c.avps, 6 + a.getLength > 1023) :
+    writeControl w c = .error .panic := by
+  obtain ⟨a, ha, hl⟩ := h
+  unfold writeControl
+  simp only []
+  rw [writeAvps_oversize _ _ ⟨a, ha, by rw [← getLength_exact]; exact hl⟩]
+
+/-- every message too large in either way is refused: over 65535 octets in all, or with an AVP over 1023 — no
+    side condition -/
+theorem control_any_oversize_refused (w : Bytes) (c : Control)
+    (h : (∃ a ∈ c.avps, 6 + a.getLength > 1023) ∨ 12 + (c.avps.map fun a => 6 + a.getLength).sum > 65535) :
+    writeControl w c = .error .panic := by
+  by_cases ha : ∃ a ∈ c.avps, 6 + a.getLength > 1023
+  · exact control_with_oversize_avp_refused w c ha
+  · have hall : ∀ a ∈ c.avps, 6 + a.value.length ≤ 1023 := by
+      intro a hm
+      false_or_by_contra
+      rename_i hh
+      exact ha ⟨a, hm, by rw [getLength_exact]; omega⟩
+    rcases h with h | h
+    · exact absurd h ha
+    · apply writeControl_oversize w c hall
+      have : (avpsImage c.avps).length = (c.avps.map fun a => 6 + a.getLength).sum := by
+        clear hall ha h
+        induction c.avps with
+        | nil => rfl
+        | cons a as ih =>
+          simp only [avpsImage, List.flatMap_cons, List.length_append, List.map_cons, List.sum_cons] at ih ⊢
+          rw [avpImage_length, getLength_exact, ih]
+      omega
+
+/-- encoding either returns or fails loudly — it has no third outcome (no undefined behaviour, no silent truncation) -/
+theorem control_ok_or_panic (w : Bytes) (c : Control) :
+    (∃ out, writeControl w c = .ok out) ∨ writeControl w c = .error .panic := by
+  by_cases ha : ∀ a ∈ c.avps, 6 + a.value.length ≤ 1023
+  · by_cases hl : 12 + (avpsImage c.avps).length ≤ 65535
+    · exact .inl ⟨_, writeControl_eq w c ha hl⟩
+    · exact .inr (writeControl_oversize w c ha (by omega))
+  · right
+    apply control_with_oversize_avp_refused
+    false_or_by_contra
+    rename_i hn
+    apply ha
+    intro a hm
+    false_or_by_contra
+    rename_i hh
+    exact hn ⟨a, hm, by rw [getLength_exact]; omega⟩
+
+theorem avp_ok_or_panic (w : Bytes) (a : AVP) : (∃ out, writeAvp w a = .ok out) ∨ writeAvp w a = .error .panic := by
+  by_cases hl : 6 + a.value.length ≤ 1023
+  · exact .inl ⟨_, writeAvp_eq w a hl⟩
+  · exact .inr (writeAvp_oversize w a (by omega))
+
+/-- **The tiles are the AVPs.**  Whenever control-message encoding returns, what was appended is the 12-octet header
+    followed by one image per AVP, in order; the i-th image is exactly `6 + get_length` of the i-th AVP long and its
+    own 10-bit length field says so; the header's Length field is the size of all of it. -/
+theorem encode_tiles_exact (w : Bytes) (c : Control) (out : Bytes) (h : writeControl w c = .ok out) :
+    ∃ hdr : Bytes, ∃ imgs : List Bytes,
+      out = w ++ hdr ++ imgs.flatten ∧ hdr.length = 12 ∧ imgs.length = c.avps.length ∧
+      lengthField (hdr ++ imgs.flatten) = some (12 + imgs.flatten.length) ∧
+      (∀ i (hi : i < imgs.length) (hj : i < c.avps.length),
+        imgs[i].length = 6 + (c.avps[i]).getLength ∧ recLen imgs[i] = some imgs[i].length) := by
+  have ha : ∀ a ∈ c.avps, 6 + a.value.length ≤ 1023 := by
+    intro a hm
+    false_or_by_contra
+    rename_i hh
+    rw [control_with_oversize_avp_refused w c ⟨a, hm, by rw [getLength_exact]; omega⟩] at h
+    cases h
+  have hl : 12 + (avpsImage c.avps).length ≤ 65535 := by
+    false_or_by_contra
+    rename_i hh
+    rw [writeControl_oversize w c ha (by omega)] at h
+    cases h
+  rw [writeControl_eq w c ha hl] at h
+  cases h
+  refine ⟨(controlImage c).take 12, c.avps.map avpImage, ?_, ?_, by simp, ?_, ?_⟩
+  · have h12 : (controlImage c).drop 12 = avpsImage c.avps := by simp [controlImage, be16]
+    have : (c.avps.map avpImage).flatten = avpsImage c.avps := by simp [avpsImage, List.flatMap]
+    rw [this, ← h12, List.append_assoc, List.take_append_drop]
+  · have := controlImage_length c
+    simp only [List.length_take]; omega
+  · have h12 : (controlImage c).drop 12 = avpsImage c.avps := by simp [controlImage, be16]
+    have hf : (c.avps.map avpImage).flatten = avpsImage c.avps := by simp [avpsImage, List.flatMap]
+    have hlf : lengthField (controlImage c) = some (controlImage c).length := by
+      rw [controlImage_length]
+      simp only [controlImage, be16, List.cons_append, List.nil_append, lengthField]
+      have e := u16_small (show 12 + (avpsImage c.avps).length < 65536 by omega)
+      rw [e]
+      have e1 : (UInt8.ofNat ((12 + (avpsImage c.avps).length) / 256)).toNat = (12 + (avpsImage c.avps).length) / 256 :=
+        u8_small (by omega)
+      have e2 : (UInt8.ofNat ((12 + (avpsImage c.avps).length) % 256)).toNat = (12 + (avpsImage c.avps).length) % 256 :=
+        u8_small (by omega)
+      rw [e1, e2]; congr 1; omega
+    have hwhole : (controlImage c).take 12 ++ (c.avps.map avpImage).flatten = controlImage c := by
+      rw [hf, ← h12, List.take_append_drop]
+    rw [hwhole, hlf, controlImage_length, hf]
+  · intro i hi hj
+    simp only [List.getElem_map]
+    have hm : c.avps[i] ∈ c.avps := List.getElem_mem hj
+    refine ⟨by rw [avpImage_length, getLength_exact], ?_⟩
+    have := recLen_image c.avps[i] [] (ha _ hm)
+    rw [List.append_nil] at this
+    rw [this, avpImage_length]
 
 /-- `hide` refuses an AVP whose original length does not fit the length subfield -/
 theorem hide_oversize_refused (md5 : Bytes → Bytes) (a : AVP) (s : Bytes) (rv : UInt32) (lp ap : Bytes)
@@ -151,5 +256,11 @@ theorem hide_oversize_refused (md5 : Bytes → Bytes) (a : AVP) (s : Bytes) (rv 
 /-! non-vacuity -/
 example : tilesControl [0x13, 0x20, 0, 20, 0, 1, 0, 2, 0, 3, 0, 4, 1, 8, 0, 0, 0, 0, 0, 1] = true := by decide
 example : tilesControl [0x13, 0x20, 0, 20, 0, 1, 0, 2, 0, 3, 0, 4, 1, 9, 0, 0, 0, 0, 0, 1] = false := by decide
+/-- the encoder returns on a small message and refuses a 1018-octet value: both sides of every theorem are inhabited -/
+example : writeControl [0xAA] ⟨0, 1, 2, 3, 4, [.messageType .hello]⟩ =
+    .ok [0xAA, 0x13, 0x20, 0, 20, 0, 1, 0, 2, 0, 3, 0, 4, 1, 8, 0, 0, 0, 0, 0, 6] := by decide
+example (v : Bytes) (h : v.length = 1018) : 6 + (AVP.hostName v).getLength > 1023 := by
+  show 6 + v.length > 1023
+  omega
 
 end Rl2tp.C07
